@@ -9,6 +9,7 @@ it; every joined result reaches the diagnostics map and the collector leaves onl
 Err; content selection as for check-lua; no swallowed Result in client, task and collector.
 Not decided: what async-openai / reqwest do on each HTTP fault (dependency behaviour).
 """
+import os
 import re
 
 from engine.cfg import cfg_of
@@ -63,6 +64,17 @@ def check_env(ctx, out, rule="C19.env"):
                 top = ctx.facts.body(top.parent)
             if top.id not in [c.id for c in cands]:
                 cands.append(top)
+    # a helper *function* `env_or(name, default)` reads the variable whose name it is given: the names are at
+    # its callers, where it is looked through
+    for b in list(cands):
+        if b.kind in ("Fn", "AssocFn") and any(callee_matches(t, r"^std::env::var$") and t["args"] and util.const_val(ctx, b, t["args"][0]) is None for bi, t in b.calls()):
+            for c in ctx.reachable_bodies():
+                if c.id != b.id and any((t.get("res") or "") == b.id for bi, t in c.calls()):
+                    top = c
+                    while top.kind == "Closure" and top.parent and ctx.facts.body(top.parent) is not None:
+                        top = ctx.facts.body(top.parent)
+                    if top.id not in [x.id for x in cands]:
+                        cands.append(top)
     for b in cands:
         # normalised view: a helper closure that reads `env::var(name)` is inlined at each use
         b = ctx.inl(b, skip=ctx.domain_api, tag="domain", sugar=True) if not b.coroutine else b
@@ -149,6 +161,86 @@ def check_env(ctx, out, rule="C19.env"):
             out.viol(RULE, RULE + "|detector", ctx.where(det) if det else "-", "the check-ai detector does not build its client from the environment")
     out.inst(RULE, m, 7, ["KEY->with_api_key, URL->with_api_base, MODEL->model; unset key -> ''"])
 
+
+
+def check_reply_model(ctx, out, cb, rule="C19.reply"):
+    """The reply table on a small model (path-sensitive constant propagation over the request function's
+    normalised body, from the point where the awaited request hands back its response): no choice -> Err;
+    a choice without content -> Err; content equal to `OK` / `OK.` ignoring ASCII case -> pass (Ok(None));
+    any other content -> Ok(Some(that content)). True / False, None if the walk cannot follow the code."""
+    from engine import casewalk as CW
+    from engine import listmodel as LM
+    from engine import strmodel as SM
+    polls = [(bi, t) for bi, t in cb.calls() if (t.get("def") or "") == "std::future::Future::poll" and re.search(r"async_openai::Chat.*::create", t.get("res") or "")]
+    if len(polls) != 1:
+        return None
+    pbi, pt = polls[0]
+    std = CW.std_hooks()
+    lm = LM.hooks()
+    sm = SM.hooks()
+    cases = [("no-choice", None, "err"), ("no-content", "<none>", "err"), ("OK", "OK", "pass"), ("ok", "ok", "pass"), ("OK.", "OK.", "pass"), ("oK.", "oK.", "pass"),
+             ("OK!", "OK!", "report"), ("space-OK", " OK", "report"), ("OKAY", "OKAY", "report"), ("text", "The block does not meet the condition", "report"), ("empty", "", "report")]
+    n = 0
+    for tag, content, want in cases:
+        if content is None:
+            choices = LM.lst(())
+        else:
+            c = CW.adt("std::option::Option", "None", 0, []) if content == "<none>" else CW.adt("std::option::Option", "Some", 1, [("0", CW.const(content))])
+            choice = ("adt", "async_openai::types::chat::ChatChoice", "ChatChoice", 0, (("message", ("adt", "async_openai::types::chat::ChatCompletionResponseMessage", "ChatCompletionResponseMessage", 0, (("content", c),))),))
+            choices = LM.lst((choice,))
+        resp = ("adt", "async_openai::types::chat::CreateChatCompletionResponse", "CreateChatCompletionResponse", 0, (("choices", choices),))
+        outcomes = set()
+
+        def hook(w, bb, t, argv, env, resp=resp):
+            if bb == pbi:
+                return CW.adt("std::task::Poll", "Ready", 0, [("0", CW.adt("std::result::Result", "Ok", 0, [("0", resp)]))])
+            nm = callee_name(t)
+            if re.search(r"anyhow::Context.*::(context|with_context)$|anyhow::context::<impl anyhow::Context|Result::<T, E>::map_err$", nm):
+                a0 = w.deref_val(env, argv[0]) if argv else CW.TOP
+                return a0 if a0[0] == "adt" and a0[2] in ("Ok", "Err") else None
+            for h0 in (sm, lm):
+                r = h0(w, bb, t, argv, env)
+                if r is not None:
+                    return r
+            r = std(w, bb, t, argv, env)
+            if r is None and os.environ.get("BW_DEBUG_MODEL") and bb >= 0:
+                print("   reply-model: unmodelled", nm.split("::")[-1], [str(w.deref_val(env, a))[:60] for a in argv][:3])
+            return r
+        w = CW.Walk(ctx, cb, [hook], max_states=20000)
+
+        def on_visit(bb, env, outcomes=outcomes):
+            tm = cb.blocks[bb]["term"]
+            if tm and tm["k"] == "return":
+                r0 = env.get(0, CW.TOP)
+                if r0[0] == "adt" and r0[2] == "Err":
+                    outcomes.add("err")
+                elif r0[0] == "adt" and r0[2] == "Ok":
+                    pl = w.field(r0, "0")
+                    if pl[0] == "adt" and pl[2] == "None":
+                        outcomes.add("pass")
+                    elif pl[0] == "adt" and pl[2] == "Some":
+                        txt = w.field(pl, "0")
+                        outcomes.add("report" if txt == CW.const(content) else "report-other")
+                    else:
+                        outcomes.add("?")
+                else:
+                    outcomes.add("?")
+        w.on_visit = on_visit
+        try:
+            w.explore(pbi, {})
+        except CW.Limit:
+            return None
+        if "?" in outcomes or not outcomes:
+            return None
+        if outcomes == {want}:
+            n += 1
+        else:
+            desc = {"no-choice": "a response without choices", "no-content": "a choice without content"}.get(tag, "the reply %r" % content)
+            out.viol(rule, "%s|model|%s" % (rule, tag), ctx.where(cb),
+                     "%s leads to %s; expected %s (no choice / no content: error; OK or OK. ignoring ASCII case: pass; anything else: one diagnostic carrying the reply)" % (
+                         desc, sorted(outcomes), {"err": "an error", "pass": "a pass", "report": "a diagnostic with that text"}[want]))
+    out.inst(rule, 5 if n == len(cases) else 0, 5, ["reply table on a small model: %d cases" % len(cases)], exhaustive=True)
+    return n == len(cases)
 
 
 def run(ctx, out, tier):
@@ -239,6 +331,19 @@ def run(ctx, out, tier):
 
     # ------------------------------------------------------------------ C19.reply
     r = 0
+    reply_decided = None
+    if cb is not None:
+        tr_r = out.trial()
+        try:
+            reply_decided = check_reply_model(ctx, tr_r, cb)
+        except Exception as e:      # noqa: BLE001
+            ctx.view_fallbacks.append("C19.reply: small-model analysis failed (%s: %s)" % (type(e).__name__, e))
+            reply_decided = None
+        if reply_decided is not None:
+            out.adopt(tr_r)
+    out_real = out
+    if reply_decided is not None:
+        out = out.trial()       # the structural reading below is only reported when the model is undecided
     if cb is not None:
         cfg = cfg_of(cb)
         E = ctx.expr(cb)
@@ -332,6 +437,7 @@ def run(ctx, out, tier):
         elif consts:
             r += 1
     out.inst("C19.reply", r, 5, ["no choice|no content -> Err; OK|OK. (ascii-ci) -> pass; else -> diagnostic(reply)"], exhaustive=True)
+    out = out_real
 
     # ------------------------------------------------------------------ task site args
     k = 0
